@@ -416,6 +416,21 @@ def giveup_leg(ctx, parent, corr_broken):
         ctx.log("give-up replay did not run completely:\n" + log[-800:])
         corr_broken.append("give-up replay (TestVerifToFileGiveUpBin)")
     ctx.corr["give_up"] = {"default_max_attempts_of_main": dmx, "rows": rows}
+    # --gzip-level outside 1..9 must be refused by the real binary before it consumes anything
+    rc, glog = ctx.run_cmd([parent, "-test.run", "^TestVerifToFileGzipLevelBin$", "-test.count=1", "-test.timeout=0"], timeout=300,
+                           env={"VF_E8_TOFILE_BIN": binp})
+    grows = [dict(kv.split("=", 1) for kv in l.split()[1:]) for l in glog.splitlines() if l.startswith("GZLEVEL ")]
+    ctx.corr["gzip_level_cli"] = grows
+    if len(grows) < 5:
+        corr_broken.append("gzip-level replay (TestVerifToFileGzipLevelBin)")
+    for g in grows:
+        ctx.evaluations += 1
+        ctx.count_case("gzlevel|%s|%s" % (g["level"], g["started"]), nontrivial=True)
+        if g["started"] == "true" or g["exit"] == "0":
+            ctx.violation("tofile-gzip-level-accepted",
+                          "nsq_to_file started consuming with --gzip --gzip-level=%s (outside 1..9; compress/gzip returns no "
+                          "writer for it): first message -> %s, exit %s" % (g["level"], g["response"], g["exit"]),
+                          "nsq_to_file --gzip --gzip-level=%s ; deliver one message\n" % g["level"])
     for r in rows:
         att = int(r["attempts"])
         mx = dmx if r["cli"] == "default" else int(r["cli"].split(",")[1])
